@@ -14,15 +14,14 @@ import math
 import time
 
 from .common import clause, Fail, Skip, LABELS, variables_of, peval, cls_of, close
-from ..repo import import_qubovert
-from .c11 import preflight
+from .c11 import preflight, fresh_qubovert
 from .c11 import TYPES, SPIN_FN, MATRIX, FNS, _special_models, _random_models, _vars_for, _build, _init_state
 
 GENERIC = [1, -1, 2.5, -1.25, 0.75, -3.5, 1.625, -0.375, 2.125, -2.75, 0.5625, 3.25]
 
 
 def _fn(case):
-    q = import_qubovert(fresh_c=True)
+    q = fresh_qubovert()
     return getattr(q.sim, "anneal_" + case["fn"])
 
 
@@ -364,7 +363,7 @@ def _gen_dist(ctx, in_order):
         ("pubo", "dict", {('a', 'b'): 1, ('a',): -1.5}),
     ]
     models = spin_models + bool_models + ([] if in_order else labelled)
-    extra = ctx.pick(6, 60)
+    extra = ctx.pick(6, 30)
     for _ in range(extra):
         fn, tname = rng.choice(EXACT_PAIRS)
         n = rng.choice([2, 3])
